@@ -172,3 +172,74 @@ package pattern
 //@   modifies Parser.cur, Parser.last, Parser.nextItem, Parser.bindings
 //@   ensures  [idx]  result1 == nil && istype(result0, Binding) ==> (astype(result0, Binding).Name in p.bindings) && astype(result0, Binding).idx == p.bindings[astype(result0, Binding).Name]
 //@   ensures  [mono] forall n string :: {n in p.bindings} (n in old(p.bindings)) ==> (n in p.bindings) && p.bindings[n] == old(p.bindings)[n]
+
+//@ prop C08
+
+// ---- symbols patterns and their truth value in a "world" w (= the set of symbols visible from
+// the package under analysis; analysis/code instantiates vis with the type index) ----
+//@ ghost vis(w int, s IndexSymbol) bool
+//@ ghost ev(w int, n Node) bool
+//@ group evdef
+//@ axiom [any] forall w int, n Node :: {ev(w, n)} istype(n, Any) ==> ev(w, n)
+//@ axiom [nil] forall w int, n Node :: {ev(w, n)} n == nil ==> !ev(w, n)
+//@ axiom [or]  forall w int, n Node :: {ev(w, n)} istype(n, Or) ==> (ev(w, n) == (exists k int :: {astype(n, Or).Nodes[k]} 0 <= k && k < len(astype(n, Or).Nodes) && ev(w, astype(n, Or).Nodes[k])))
+//@ axiom [and] forall w int, n Node :: {ev(w, n)} istype(n, And) ==> (ev(w, n) == (forall k int :: {astype(n, And).Nodes[k]} 0 <= k && k < len(astype(n, And).Nodes) ==> ev(w, astype(n, And).Nodes[k])))
+//@ axiom [sym] forall w int, n Node :: {ev(w, n)} istype(n, IndexSymbol) ==> (ev(w, n) == vis(w, astype(n, IndexSymbol)))
+//@ group
+//@ ghost allEv(w int, ns []Node) bool = forall k int :: {ns[k]} 0 <= k && k < len(ns) ==> ev(w, ns[k])
+//@ ghost anyEv(w int, ns []Node) bool = exists k int :: {ns[k]} 0 <= k && k < len(ns) && ev(w, ns[k])
+
+// ---- necessary conditions of a match (TRUSTED: paraphrase of pattern/match.go; sat(w, p, s)
+// reads "pattern node p, in a Symbol name position iff s, matches some value of a package whose
+// visible symbols are w"; Not, Token, Any and nil imply nothing) ----
+//@ ghost sat(w int, p Node, s bool) bool
+//@ ghost nfields(p Node) int
+//@ ghost fieldAt(p Node, i int) Node
+//@ func symbolToIndexSymbol
+//@   trusted
+//@   pure
+//@ group satdef
+//@ axiom [sat_or]      forall w int, p Node, s bool :: {sat(w, p, s)} istype(p, Or) && sat(w, p, s) ==> (exists k int :: {astype(p, Or).Nodes[k]} 0 <= k && k < len(astype(p, Or).Nodes) && sat(w, astype(p, Or).Nodes[k], s))
+//@ axiom [sat_symbol]  forall w int, p Node, s bool :: {sat(w, p, s)} istype(p, Symbol) && sat(w, p, s) ==> sat(w, astype(p, Symbol).Name, true)
+//@ axiom [sat_string]  forall w int, p Node :: {sat(w, p, true)} istype(p, String) && sat(w, p, true) ==> vis(w, symbolToIndexSymbol(astype(p, String)))
+//@ axiom [sat_binding] forall w int, p Node, s bool :: {sat(w, p, s)} istype(p, Binding) && sat(w, p, s) ==> sat(w, astype(p, Binding).Node, s)
+//@ axiom [sat_list]    forall w int, p Node, s bool :: {sat(w, p, s)} istype(p, List) && sat(w, p, s) ==> sat(w, astype(p, List).Head, s) && sat(w, astype(p, List).Tail, s)
+//@ axiom [sat_struct]  forall w int, p Node, s bool, i int :: {sat(w, p, s), fieldAt(p, i)} sat(w, p, s) && p != nil && !istype(p, Or) && !istype(p, Not) && !istype(p, Token) && !istype(p, Symbol) && !istype(p, String) && !istype(p, Binding) && !istype(p, Any) && !istype(p, List) && 0 <= i && i < nfields(p) ==> sat(w, fieldAt(p, i), s)
+//@ group
+// reflection over a pattern struct enumerates its fields
+//@ extern reflect.ValueOf(i any) reflect.Value
+//@   pure
+//@ extern (reflect.Value).NumField() int
+//@   pure
+//@ extern (reflect.Value).Field(i int) reflect.Value
+//@   pure
+//@ extern (reflect.Value).Interface() any
+//@   pure
+//@ group refl
+//@ axiom [refl_n] forall p Node :: {reflect.ValueOf(p).NumField()} reflect.ValueOf(p).NumField() == nfields(p)
+//@ axiom [refl_f] forall p Node, i int :: {reflect.ValueOf(p).Field(i).Interface()} reflect.ValueOf(p).Field(i).Interface() == fieldAt(p, i)
+//@ group
+
+// the helper that conjoins a child's symbols pattern: flattens And, drops Any and nil
+//@ func collectSymbols$1
+//@   uses     evdef
+//@   requires out != nil
+//@   nosafe   all
+//@   modifies And.Nodes
+//@   ensures  [all] forall w int :: {allEv(w, out.Nodes)} allEv(w, old(out.Nodes)) && (c == nil || ev(w, c)) ==> allEv(w, out.Nodes)
+//@   ensures  [others] forall p *And :: {p.Nodes} p != out ==> p.Nodes == old(p.Nodes)
+//@   ensures  [each] forall w int, k int :: {ev(w, out.Nodes[k])} allEv(w, old(out.Nodes)) && (c == nil || ev(w, c)) && 0 <= k && k < len(out.Nodes) ==> ev(w, out.Nodes[k])
+
+// collectSymbols over-approximates: whatever can match makes the collected pattern true
+//@ func collectSymbols
+//@   uses     evdef, satdef, refl
+//@   nosafe   all
+//@   may_panic
+//@   modifies And.Nodes
+//@   ensures  [fresh] forall p *And :: {p.Nodes} old(allocated(p)) ==> p.Nodes == old(p.Nodes)
+//@   ensures  [need] forall w int :: {sat(w, node, inSymbol)} sat(w, node, inSymbol) ==> ev(w, result)
+//@   loop 1   index k
+//@   loop 1   invariant [some] forall w int, j int :: {sat(w, node.Nodes[j], inSymbol)} 0 <= j && j < k && sat(w, node.Nodes[j], inSymbol) ==> anyEv(w, s.Nodes)
+//@   loop 2   invariant [all]  forall w int :: {sat(w, node, inSymbol)} sat(w, node, inSymbol) ==> allEv(w, out.Nodes)
+//@   loop 1   invariant [fresh] forall p *And :: {p.Nodes} old(allocated(p)) ==> p.Nodes == old(p.Nodes)
+//@   loop 2   invariant [fresh] forall p *And :: {p.Nodes} old(allocated(p)) ==> p.Nodes == old(p.Nodes)
